@@ -210,6 +210,41 @@ fn c14_cell(case: &Value, stats: &mut Stats) -> RunResult<()> {
                     Ok(Err(e)) => return Err(v("matching-import-refused/after-discard", format!("import after discard + refill failed: {e}"))),
                     Err(p) => return Err(v("import-panicked", format!("import panicked: {p}"))),
                 }
+                // fourth step (format changed): a forced import in the ORIGINAL format whose header version
+                // coincides with the stored one, so that the format is what differs - it must again return
+                // an empty vector without deleted marks (nothing of the first incarnation may resurface)
+                if !fmt_same {
+                    let stored_hv = b.vec_version();
+                    b.close();
+                    // learn the original format's layer offset from a scratch vector of another name
+                    let mut probe = make::<u64>(&fmt, "probe");
+                    let off = match catch(|| probe.open(&db, e_reopen, 5, 0)) {
+                        Ok(Ok(())) => probe.vec_version().saturating_sub(5),
+                        _ => 0,
+                    };
+                    probe.close();
+                    if stored_hv > off {
+                        let want_ver = stored_hv - off;
+                        let mut d = make::<u64>(&fmt, "x");
+                        match catch(|| d.open(&db, e_reopen, want_ver, 0)) {
+                            Ok(Ok(())) => {
+                                if d.len() != 0 || !d.holes().is_empty() {
+                                    return Err(v(
+                                        "forced-import-not-discarded/format-only-mismatch",
+                                        format!("forced {fmt} import over a stored {fmt2} vector of the same header version returned len {} and deleted marks {:?}", d.len(), d.holes()),
+                                    ));
+                                }
+                                if RAW_FORMATS.contains(&fmt.as_str()) && db.get_region("x/usize_holes").is_some_and(|r| r.meta().len() > 0) {
+                                    return Err(v("forced-import-left-old-data/format-only-mismatch", "a deleted-slot region of an earlier incarnation survived the discard".into()));
+                                }
+                                stats.bump("probe.forced_import_with_format_only_mismatch");
+                            }
+                            Ok(Err(e)) => return Err(v("forced-import-failed/format-only-mismatch", format!("forced import failed: {e}"))),
+                            Err(p) => return Err(v("import-panicked", format!("import panicked: {p}"))),
+                        }
+                        d.close();
+                    }
+                }
             }
         }
     }
